@@ -587,6 +587,35 @@ func Exec(sc *Scenario) *Run {
 				}
 				tr.WaitFor(Watchdog/4, func() bool { return atomic.LoadInt32(&rl.switches) > n0 })
 			}
+		case "stallinject":
+			// the broker stops reading from the current connection (writes to it block from now on) and sends one more
+			// QoS 1 message: the reader goroutine gets stuck writing its PUBACK. Waits until the request submitted just
+			// before has been written, so that it is the acknowledgement that is awaited, not the write.
+			tr.WaitFor(Watchdog/20, func() bool {
+				last := ""
+				for _, s := range r.SubmSnapshot() {
+					if s.Step.Op == "pub" && s.Step.QoS > 0 {
+						last = s.Step.Key()
+					}
+				}
+				if last == "" {
+					return true
+				}
+				for i := len(tr.Events) - 1; i >= 0; i-- {
+					e := tr.Events[i]
+					if e.Kind == memnet.KWrite && e.OK && PktKey(e.Pkt) == last {
+						return true
+					}
+				}
+				return false
+			})
+			tr.Mu.Lock()
+			if br.Cur != nil && br.Cur.OpenLocked() {
+				br.Cur.Stalled = true
+				tr.AddLocked(memnet.Event{Kind: memnet.KNote, Conn: br.Cur.ID, S: "broker stops reading from this connection"})
+				br.PushLocked(InMsg{Tag: "stall", QoS: 1})
+			}
+			tr.Mu.Unlock()
 		case "extrapingresp":
 			// a PINGRESP nobody asked for (a duplicate, or the late answer to a ping given up long ago)
 			tr.Mu.Lock()
